@@ -12,20 +12,29 @@ import c05lib as L
 META = {
     "category": "proof",
     "text": "Lean theorems over an executable whole-buffer model of the .xz container decoder (stream_decoder.c, block_decoder.c, "
-            "index_hash.c; payload decoder and check function are parameters): acceptance implies every stored Check equals the check of "
-            "the Block's output, every size field and the Index equal the decoded Blocks, header and footer flags agree, Backward Size is "
-            "the real Index size, all CRC32s match and all padding is zero; damage confined to Compressed Data that is accepted with "
-            "different output exhibits a Check collision; a single-bit flip in the CRC32-protected fixed-layout fields is always rejected "
-            "(CRC32 detects every single-bit error, proved); a proper prefix of an accepted Stream is never accepted. Tie: the real decoders "
-            "(lzma_stream_decoder +/- CONCATENATED and TELL_*/IGNORE_CHECK flags, lzma_stream_buffer_decode, lzma_stream_decoder_mt, "
-            "lzma_auto_decoder, lzma_alone_decoder, lzma_lzip_decoder) are run on every single-bit flip and every truncation of small valid "
-            "files made by the real encoder and on random multi-byte edits of larger ones; verdict, consumed count, notices and output "
-            "must equal the model's, and a direct oracle (no Lean involved) checks 'success => output == original', 'non-payload damage => "
-            "never success', 'truncated inside a stream => never complete', with per-field counts from an independent structural parse.",
+            "index_hash.c, stream_buffer_decoder.c; the payload decoder and the check function are parameters, so they hold for every "
+            "filter chain and every check): (1) acceptance implies the declarative grammar ValidXz - every stored Check equals the check of "
+            "the Block's output (supported IDs), every size field equals the real size, the Index is byte for byte the canonical encoding "
+            "of the decoded Blocks, header flags = footer flags, Backward Size = real Index size, all CRC32s match, all padding is zero; "
+            "the grammar is unambiguous (output and length are functions of the input); (2) a Block accepted with damaged Compressed Data "
+            "and the original Check exhibits a Check collision; (3) CRC32 and CRC64 detect every single-bit error, hence every single-bit "
+            "flip in the Stream Header, in the Index (except its indicator byte) and in the Stream Footer makes the whole file rejected, and "
+            "in a Block Header (except its size byte), Block Padding or Check makes that Block rejected; (4) acceptance depends only on "
+            "the consumed bytes, so no proper prefix of an accepted Stream is accepted (given the same locality of the payload decoder); "
+            "(5) an accepted .lz member has the right CRC32, data size and member size. Tie: the real decoders (lzma_stream_decoder with and "
+            "without CONCATENATED and the TELL_*/IGNORE_CHECK flags, lzma_stream_buffer_decode, lzma_stream_decoder_mt, lzma_auto_decoder, "
+            "lzma_alone_decoder, lzma_lzip_decoder) run on every single-bit flip and every truncation of small valid files made by the real "
+            "encoder, on crafted variants whose covering CRC32 is recomputed, and on random multi-byte edits of larger files; verdict, "
+            "consumed count, notices and output must equal the model's, and a direct oracle (no Lean involved) checks 'success => output == "
+            "original', 'non-payload damage => never success', 'truncated inside a stream => never complete', with per-field counts from an "
+            "independent structural parse.",
     "note": "Trusted: Lean kernel + propext/Classical.choice/Quot.sound; the harness and the Python structural parser; the C compiler. "
             "The index hash (SHA-256 of the size pairs in C) is modelled as comparing the lists (collision-freeness assumed, stated). "
-            "Multi-byte damage can only be shown detected up to a Check collision (accept_implies_checked / payload_damage_needs_collision); "
-            "the threaded decoder is covered by the direct oracle only.",
+            "Hypotheses of the locality/prefix theorems on the abstract payload decoder: PayloadLocal, PayloadBounded (shown satisfiable; for "
+            "the real LZMA2 chain they are exercised by the correspondence, not proved). Not theorems: rejection of a flip in a Block Header "
+            "Size byte or the Index Indicator (would need a CRC32 coincidence to be excluded), whole-file lifting of the Block-level flip "
+            "theorems, completeness of the grammar. Multi-byte damage is covered only up to a Check collision. The threaded decoder is "
+            "covered by the direct oracle only. Known finding: .lz trailing-data rule (findings/C05-lz-trailing-data-rule.json).",
     "technique": "Lean 4 proof over an executable model + differential correspondence + exhaustive single-fault injection",
 }
 
@@ -272,8 +281,11 @@ def plan_file(ctx, fi, f, exhaustive, n_edits):
 
 def plan_crafted(ctx, files, fi, f):
     """Crafted variants of an .xz file (field changed + covering CRC32 recomputed): each becomes a pseudo file whose
-    undamaged-looking bytes are decoded as they are (`one <api> <flags> w`). Appends to `files`, returns tasks."""
-    tasks = []
+    bytes are decoded as they are (`base <variant>` then `one <api> <flags> w`). Appends the pseudo files to `files`
+    and returns two tasks (APIs with a model / threaded decoder); a desc carries the pseudo file's index as 6th field."""
+    groups = ([("sd", 0), ("sd", 8), ("sbd", 0), ("auto", 8), ("sd", 16)], [("mt2", 8), ("mt4", 0)])
+    ops = [[], []]
+    descs = [[], []]
     for (what, field, data) in L.crafted_variants(f, ctx.rng):
         g = dict(f)
         g["data"] = data
@@ -281,11 +293,14 @@ def plan_crafted(ctx, files, fi, f):
         g["crafted"] = (what, field)
         files.append(g)
         gi = len(files) - 1
-        # (a task goes to the model driver iff its first op's API has a model: keep the threaded decoder apart)
-        for cfgs in ([("sd", 0), ("sd", 8), ("sbd", 0), ("auto", 8), ("sd", 16)], [("mt2", 8), ("mt4", 0)]):
-            tasks.append((gi, ["one %s %d w" % c for c in cfgs], [(a, fl, "w", 0, None) for (a, fl) in cfgs]))
+        for k, cfgs in enumerate(groups):
+            ops[k].append("base " + vlib.hexs(data))
+            descs[k].append((cfgs[0][0], 0, "b", 0, None, gi))
+            for (a, fl) in cfgs:
+                ops[k].append("one %s %d w" % (a, fl))
+                descs[k].append((a, fl, "w", 0, None, gi))
         ctx.count("crafted:" + field)
-    return tasks
+    return [(fi, ops[k], descs[k]) for k in (0, 1) if ops[k]]
 
 
 # ------------------------------------------------------------------------------------------------------------------
@@ -323,7 +338,7 @@ def lz_trailing_rule_case(f, api, flags, kind, pos, res):
 
 def judge(f, desc, res):
     """Classify one result of the real decoder. Returns (category, violation text or None, known-finding key or None)."""
-    api, flags, kind, pos, edit = desc
+    api, flags, kind, pos, edit = desc[:5]
     ret = res["ret"]
     if ret == 101:
         return "abort", "the library called abort() (assertion failure) on this input", None
@@ -388,7 +403,7 @@ def run_task(exe, f, ops, nexp):
 
 
 def replay_dict(f, desc, res_c, res_m, what):
-    api, flags, kind, pos, edit = desc
+    api, flags, kind, pos, edit = desc[:5]
     if kind == "w":
         op = "one %s %d w" % (api, flags)
     elif kind in ("f", "t"):
@@ -414,6 +429,8 @@ def run(ctx):
         "index hash: SHA-256 of the (unpadded, uncompressed) pairs is modelled as the list of pairs (no collision among compared lists)",
         "the harness feeds the same damaged bytes to the C code and to the model driver; the Python structural parser assigns flipped bits to fields",
         "the output buffer (48 MiB) is never the limiting factor (cases where it fills up are counted as 'outfull' and not judged)",
+        "locality theorems (prefix_free, index/footer/padding/check flips) assume PayloadLocal and PayloadBounded of the abstract payload decoder",
+        "the .lzma/.lz/auto models are those of C16 (Model/Alone.lean, Lzip.lean, Auto.lean); a disagreement there is reported as a C05 correspondence break",
     ]
     # P
     p_ok = ctx.lean_stage(PROP_MODULES, exes=["xzm_c05"])
@@ -446,8 +463,8 @@ def run(ctx):
         n_edits = 40
     else:
         seeds_x = seeds
-        small = generated_files(ctx, 110, 16)
-        legacy = generated_legacy(ctx, 14)
+        small = generated_files(ctx, 70, 12)
+        legacy = generated_legacy(ctx, 10)
         n_edits = 400
     files = seeds_x + small + legacy
     ctx.log("files: %d (%d seeds, %d generated .xz, %d .lzma/.lz) in %.1fs" % (len(files), len(seeds_x), len(small), len(legacy), time.time() - t0))
@@ -474,13 +491,17 @@ def run(ctx):
         if out is None:
             # the harness died: find the op
             f = files[t[0]]
+            cur_base = None
             for op in t[1]:
                 tt = op.split()
+                if tt[0] == "base":
+                    cur_base = op
+                    continue
                 cnt = (int(tt[4]) - int(tt[3])) if tt[0] in ("flips", "truncs") else 1
-                o1, rc1, e1 = run_task(exe, f, [op], cnt)
+                o1, rc1, e1 = run_task(exe, f, ([cur_base, op] if cur_base else [op]), cnt + (1 if cur_base else 0))
                 if o1 is None:
                     ctx.violation("harness-abort", {"kind": "implementation aborted (sanitizer/assert/crash)", "file": f["name"],
-                                                    "base_hex": f["data"].hex(), "orig_hex": f["plain"].hex(), "op": op, "stderr": e1}, True)
+                                                    "base_hex": (cur_base.split()[1] if cur_base else f["data"].hex()), "orig_hex": f["plain"].hex(), "op": op, "stderr": e1}, True)
                     return "proof"
             ctx.obligation_broken("C harness failed on a task but not on its ops one by one", err)
             return "proof"
@@ -507,7 +528,11 @@ def run(ctx):
         f = files[t[0]]
         mo = res_m.get(ti) if res_m is not None else None
         for k, (desc, line) in enumerate(zip(t[2], out)):
-            api, flags, kind, pos, edit = desc
+            api, flags, kind, pos, edit = desc[:5]
+            if kind == "b":
+                continue          # a `base` line inside a batch of crafted variants
+            if len(desc) > 5:
+                f = files[desc[5]]
             res = parse_res(line)
             if res is None:
                 ctx.obligation_broken("unparsable harness line", line)
@@ -623,25 +648,37 @@ def cli_stage(ctx, files):
 
 
 def replay(ctx, path):
+    """Re-run a recorded input on the real decoders: exit 1 + VIOLATION line iff the recorded behaviour is still there."""
     r = json.load(open(path))
     vlib.c_build("asan", targets=["liblzma"])
     okh, log, exe = vlib.harness_build("c05", HARNESS)
-    if "file" in r and "truncate_to" in r and "base_hex" not in r:
+    if not okh:
+        print(log)
+        return 2
+    bad = False
+    if "truncate_to" in r and "base_hex" not in r:
+        # findings/C05-stream-buffer-decode-truncated.json (fixed by 487ccd2)
         data = open(os.path.join(vlib.REPO, r["file"]), "rb").read()
-        lines = ["base " + data.hex(), "orig -", "one sbd 0 t %d" % r["truncate_to"]]
-        rc, out, err = vlib.run_lines([exe], lines)
+        rc, out, err = vlib.run_lines([exe], ["base " + data.hex(), "orig -", "one sbd 0 t %d" % r["truncate_to"]])
         print("impl:", out[-1] if out else None, err[-300:])
-        bad = rc != 0 or len(out) != 3 or out[2].split()[1] != "9"
         print("expected: LZMA_DATA_ERROR (9) and no abort")
+        bad = rc != 0 or len(out) != 3 or out[2].split()[1] != "9"
     else:
-        lines = ["base " + vlib.hexs(bytes.fromhex(r["base_hex"])), "orig " + vlib.hexs(bytes.fromhex(r["orig_hex"]))]
-        d = r["damage"]
-        op = r["op"]
-        lines.append(op)
-        rc, out, err = vlib.run_lines([exe], lines)
-        print("op:", op)
-        print("impl now:", out[-1] if out else None, " recorded:", r.get("impl"), " model:", r.get("model"))
-        bad = rc != 0 or len(out) != 3 or out[2] == r.get("impl")
+        head = ["base " + vlib.hexs(bytes.fromhex(r["base_hex"])), "orig " + vlib.hexs(bytes.fromhex(r["orig_hex"]))]
+        cases = r["examples"] if "examples" in r else [r]
+        plain_len = len(r["orig_hex"]) // 2
+        for c in cases:
+            rc, out, err = vlib.run_lines([exe], head + [c["op"]])
+            now = out[2] if len(out) == 3 else None
+            print("op:", c["op"], " impl now:", now, " recorded:", c.get("impl"), " model:", c.get("model"))
+            if rc != 0 or now is None:
+                print(err[-500:])
+                bad = True
+            elif c.get("impl"):
+                bad = bad or now == c["impl"]
+            else:
+                t = now.split()
+                bad = bad or (int(t[1]) in (0, 1) and int(t[4]) != plain_len)
     if bad:
         print("VIOLATION property=C05 replay=%s" % path)
         return 1
